@@ -3,7 +3,8 @@ from .. import core, eqv, values, stdvals, vtypes
 
 ID = 'C07'
 LEVEL = 'exploration'
-RULE = ('case = (instance recipe of a stdlib type with a bundled printer: datetime/date/time (naive, utc, fixed '
+RULE = ('Exhaustive: a boundary corpus (every pytz zone of the pool x midnight / fold=1 datetimes and times, extreme dates and timedeltas, empty / bounded / degenerate instances of every container, every member and Flag combination, every exception class ...) x every placement x 2 (quick) / 4 (thorough) configurations; ' +
+        'case = (instance recipe of a stdlib type with a bundled printer: datetime/date/time (naive, utc, fixed '
         'datetime.timezone with/without name and sub-minute offsets, pytz utc/named/localized/FixedOffset, fold), '
         'timedelta (0, +-1us, min, max, 365d multiples, random), timezone, OrderedDict, defaultdict, deque, Counter, '
         'ChainMap, mappingproxy, UUID, Enum/Flag members, SimpleNamespace, namedtuples (0..n fields, renamed, typing), '
@@ -19,14 +20,47 @@ ASSUMPTIONS = ['equality of reconstructed objects: Python == extended by observa
                'tzinfo objects are compared by the utcoffset/dst/tzname they give a probe datetime (pytz classes compare by identity)']
 BUDGET = {'quick': {'random': 12000, 'shards': 16}, 'thorough': {'random': 400000, 'shards': 16}}
 
-PLACES = ['top', 'list', 'dictval', 'dictkey', 'odict', 'deque', 'deep', 'twice', 'rebuilt-pair', 'keyval']
+PLACES = ['top', 'list', 'dictval', 'dictkey', 'odict', 'deque', 'deep', 'twice', 'rebuilt-pair', 'keyval', 'after-relatives']
+_CORPUS_BY_KIND = {}
+
+
+def _zones(r, out):
+    if isinstance(r, list):
+        if len(r) >= 2 and r[0] in ('pytz', 'pytz_localized') and isinstance(r[1], str):
+            out.append(r[1])
+        for x in r:
+            _zones(x, out)
+    return out
+
+
+def relatives(r):
+    """values related to r that share whatever the package or the types cache: the pytz zones r mentions (the zone
+    object itself and a tzinfo localized in it) and two other boundary instances of the same type"""
+    import datetime
+    import pytz
+    out = []
+    for z in _zones(r, []):
+        out.append(pytz.timezone(z))
+        out.append(pytz.timezone(z).localize(datetime.datetime(2001, 2, 3, 4, 5)))
+    if not _CORPUS_BY_KIND:
+        for c in boundary_corpus():
+            _CORPUS_BY_KIND.setdefault(c[1], []).append(c)
+    same = _CORPUS_BY_KIND.get(r[1], [])
+    if same:
+        h = core.digest(r)[0]
+        for j in (h % len(same), (h // 7 + 1) % len(same)):
+            try:
+                out.append(values.build(same[j]))
+            except Exception:
+                pass
+    return out
 
 
 def placed(v, where):
     import collections
     if where == 'top':
         return v
-    if where == 'list':
+    if where in ('list', 'after-relatives'):
         return [v, 1]
     if where == 'dictval':
         return {'k': v}
@@ -48,7 +82,7 @@ def placed(v, where):
 def unplace(obj, where):
     if where == 'top':
         return obj
-    if where == 'list':
+    if where in ('list', 'after-relatives'):
         return obj[0]
     if where == 'dictval':
         return obj['k']
@@ -72,6 +106,74 @@ def fixed_cases():
     yield {'v': ['std', 'tz', ['fixed', -17997, 0, 'X']], 'place': 'list', 'cfg': cfg}
     yield {'v': ['std', 'datetime', [2020, 1, 1, 0, 5, 0, 0], ['fixed', 19800, 0, None], 1], 'place': 'deep', 'cfg': cfg}
     yield {'v': ['std', 'timedelta', [-999999999, 0, 0]], 'place': 'dictkey', 'cfg': cfg}
+
+
+def boundary_corpus():
+    """boundary instances of every standard-library type the package ships a printer for"""
+    I = lambda n: ['int', n]
+    T = lambda s: ['str', s]
+    std = lambda *a: ['std'] + list(a)
+    tzs = [None, ['utc'], ['fixed', 0, 0, 'Z'], ['fixed', 3600, 0, None], ['fixed', -86399, 999999, None], ['fixed', 19800, 0, 'IST'],
+           ['pytz_utc'], ['pytz_fixed', 0], ['pytz_fixed', -300], ['pytz_fixed', 1439],
+           ['pytz_localized', 'Europe/Helsinki', [2021, 7, 1, 12, 0]], ['pytz_localized', 'America/New_York', [1999, 12, 31, 3, 30]]]
+    tzs += [['pytz', z] for z in stdvals.PYTZ_ZONES]
+    out = []
+    for tz in tzs:
+        if tz is not None:
+            out.append(std('tz', tz))
+        out.append(std('datetime', [2020, 1, 2, 0, 0, 0, 0], tz, 0))          # exact midnight
+        out.append(std('datetime', [2020, 1, 2, 3, 4, 5, 6], tz, 1))          # fold=1
+        out.append(std('time', [0, 0, 0, 0], tz, 0))
+        out.append(std('time', [23, 59, 59, 999999], tz, 1))
+    out += [std('datetime', [1, 1, 1, 0, 0, 0, 0], None, 0), std('datetime', [9999, 12, 31, 23, 59, 59, 999999], None, 0),
+            std('datetime', [2020, 1, 2, 0, 0, 0, 1], None, 0), std('datetime', [2020, 1, 2, 0, 5, 0, 0], None, 1),
+            std('date', [1, 1, 1]), std('date', [9999, 12, 31]), std('date', [2020, 2, 29])]
+    for d, s_, us in ((0, 0, 0), (0, 0, 1), (0, 1, 0), (1, 0, 0), (-1, 0, 0), (-1, 86399, 999999), (999999999, 86399, 999999),
+                      (-999999999, 0, 0), (365, 0, 0), (730, 3661, 1001), (-800, 3661, 1001), (0, 59, 0), (0, 3600, 0), (0, 0, 1000)):
+        out.append(std('timedelta', [d, s_, us]))
+    pair = [[T('b'), I(1)], [T('a'), ['list', [I(2)]]]]
+    mixed = [[I(1), I(3)], [T('a'), I(3)], [['none'], I(3)], [['bytes', '6b'], I(1)]]
+    out += [std('odict', []), std('odict', pair), std('odict', [[['tuple', [I(1), I(2)]], ['dict', []]]]),
+            std('deque', [], None), std('deque', [], 0), std('deque', [I(1), I(2)], None), std('deque', [I(1), I(2)], 2), std('deque', [['list', []]], 5),
+            std('counter', []), std('counter', [[T('a'), 3], [T('b'), 3], [I(1), 5]]), std('counter', [[k, n[1]] for k, n in mixed]),
+            std('counter', [[T('neg'), -2], [T('zero'), 0]]),
+            std('chainmap', []), std('chainmap', [[]]), std('chainmap', [pair]), std('chainmap', [pair, []]), std('chainmap', [[], pair, []]),
+            std('mproxy', []), std('mproxy', pair),
+            std('uuid', '0' * 32), std('uuid', 'f' * 32), std('uuid', '12345678123456781234567812345678'),
+            std('ns', []), std('ns', [['a', I(1)]]), std('ns', [['fn', I(1)], ['ctx', I(2)], ['z', ['list', []]], ['a', T('x')]]),
+            std('ntuple', 'Empty', []), std('ntuple', 'Point', [I(1), ['list', [I(2)]]]), std('ntuple', 'Renamed', [I(1), I(2), I(3)]),
+            std('ntuple', 'Single', [['tuple', []]]),
+            std('struct_time', [2020, 1, 2, 3, 4, 5, 3, 2, 0]), std('struct_time', [1, 1, 1, 0, 0, 0, 0, 1, -1]),
+            std('partial', 'partial', 'len', [], []), std('partial', 'partial', 'user_function', [I(1)], [['k', T('v')]]),
+            std('partial', 'partial', 'sorted', [['list', [I(2), I(1)]]], [['reverse', ['bool', True]]]),
+            std('partial', 'partialmethod', 'user_function', [I(1)], []), std('partial', 'partial', 'dict', [], [['fn', I(1)], ['ctx', I(2)]]),
+            std('path', 'PurePosixPath', '.'), std('path', 'PurePosixPath', '/'), std('path', 'PurePosixPath', '/usr/local/lib/python3/site-packages/x.py'),
+            std('path', 'PureWindowsPath', 'C:\\dir\\file.txt'), std('path', 'PureWindowsPath', 'relative\\x'), std('path', 'PurePosixPath', "it's \"q\""),
+            ]
+    for f in sorted(stdvals.FACTORIES, key=str):
+        out.append(std('ddict', f, []))
+        out.append(std('ddict', f, pair))
+    for name in sorted(stdvals.EXCEPTIONS):
+        out.append(std('exc', name, []))
+        out.append(std('exc', name, [T('message'), I(2)]))
+    for ename, cls in sorted(stdvals.ENUMS.items()):
+        for member in cls.__members__:
+            out.append(std('enum', ename, member))
+    out += [std('enum', 'Perm', n) for n in range(8)] + [std('enum', 'IPerm', n) for n in (0, 2, 6, 8)]
+    return out
+
+
+def enumerate_cases(tier):
+    corpus = boundary_corpus()
+    cfgs = [{'width': 79, 'ribbon_width': 71, 'indent': 4}, {'width': 20, 'ribbon_width': 20, 'indent': 2, 'sort_dict_keys': True}]
+    if tier == 'thorough':
+        cfgs += [{'width': 1, 'ribbon_width': 1, 'indent': 1}, {'width': 200, 'ribbon_width': 40, 'indent': 8}]
+    for i, v in enumerate(corpus):
+        for pi, place in enumerate(PLACES):
+            for ci, cfg in enumerate(cfgs):
+                if tier == 'quick' and ci == 1 and (i + pi) % 3:
+                    continue
+                yield {'v': v, 'place': place, 'cfg': cfg}
 
 
 def strategy(tier):
@@ -137,6 +239,9 @@ def oracle(case):
         where = 'rebuilt-pair'
     else:
         obj = placed(v, where)
+    if where == 'after-relatives':
+        for rel in relatives(r):
+            values.pp(rel, **case['cfg'])       # printed first, result not judged
     p = values.pp(obj, **case['cfg'])
     labels = [r[1], 'at:' + where]
     if p.exc is not None:
